@@ -9,6 +9,8 @@
 From Coq Require Import ZArith List Bool Permutation.
 From GT Require Import Base.LogConc.
 From GT Require Import Base.LogConcProofs.
+From GT Require Import Base.LogConcCfg.
+From GT Require Import Base.LogConcCfgProofs.
 From GT Require Import LogCtxModel LogCtxProofs LogCtxJudge LogCtxJudgeProofs.
 Import ListNotations.
 Local Open Scope Z_scope.
@@ -74,13 +76,86 @@ Example C18_example_global :
   /\ emit (log_of (run core_with (Base 1 []) ops) 4) (-1) = [[7%N; 3%N]].
 Proof. vm_compute. repeat split. Qed.
 
+(* ------------------------------------------------------------------ the wrapper core, method by method *)
+(* customLevelCoreWrapper (log/custom_level.go) over any core, nested to any depth.
+   Enabled consults only the receiver's own threshold ... *)
+Theorem C18_wrapper_enabled : forall c l, enabled c l = (core_level c <=? l).
+Proof. exact enabled_level. Qed.
+
+(* ... Check adds the wrapper ITSELF to the checked entry iff that threshold admits the level ... *)
+Theorem C18_wrapper_check : forall c m l, check (Wrap c m) l = if m <=? l then [Wrap c m] else [].
+Proof. exact check_wrap. Qed.
+
+(* ... Write and Sync are the embedded core's (promoted): they reach the innermost core, no
+   threshold in between is consulted ... *)
+Theorem C18_wrapper_write_sync : forall c extra, write c extra = write (sink c) extra.
+Proof. exact write_sink. Qed.
+
+(* ... and With keeps every wrapper, in order, and appends to the innermost core. *)
+Theorem C18_wrapper_with : forall ms c fs,
+  core_with (wrap_all c ms) fs = wrap_all (core_with c fs) ms
+  /\ sink (core_with (wrap_all c ms) fs) = core_with (sink (wrap_all c ms)) fs.
+Proof. intros ms c fs. split; [apply core_with_wrap_all | apply sink_core_with]. Qed.
+
+(* Level filtering composes through ANY nest of wrappers (SetLevel after SetLevel after ...):
+   a log call emits exactly one entry with the fields of the innermost core iff its level is at
+   or above the MOST RECENT threshold; the thresholds underneath, and the base core's own,
+   neither block nor admit anything. *)
+Theorem C18_nested_levels : forall c ms l,
+  emit (wrap_all c ms) l = semit (cfields c, last ms (clevel c)) l.
+Proof. exact emit_wrap_all. Qed.
+
+(* raise after lower: Debug..hi-1 are silent again although a lower threshold lies underneath *)
+Theorem C18_raise_after_lower : forall c lo hi l, l < hi -> emit (Wrap (Wrap c lo) hi) l = [].
+Proof. exact raise_after_lower. Qed.
+
+(* lower after raise: the higher threshold underneath does not block *)
+Theorem C18_lower_after_raise : forall c lo hi l, lo <= l -> emit (Wrap (Wrap c hi) lo) l = [cfields c].
+Proof. exact lower_after_raise. Qed.
+
+Example C18_example_nested :
+  emit (wrap_all (Base 1 [7%N]) [-1; 2; 0]) (-1) = []
+  /\ emit (wrap_all (Base 1 [7%N]) [-1; 2; 0]) 0 = [[7%N]]
+  /\ emit (core_with (wrap_all (Base 1 [7%N]) [2; -1]) [8%N]) (-1) = [[7%N; 8%N]]
+  /\ emit (Wrap (Wrap (Base 0 []) (-1)) 2) 1 = [].
+Proof. vm_compute. repeat split. Qed.
+
+(* fields accumulate in call order, and a field added twice is emitted twice (zap does not
+   deduplicate keys: "exactly the fields accumulated") *)
+Theorem C18_with_order : forall c fs1 fs2,
+  cfields (core_with (core_with c fs1) fs2) = cfields c ++ fs1 ++ fs2.
+Proof. exact with_order. Qed.
+
+Theorem C18_duplicates_kept : forall c fs k,
+  count_occ N.eq_dec (cfields (core_with c fs)) k
+  = (count_occ N.eq_dec (cfields c) k + count_occ N.eq_dec fs k)%nat.
+Proof. exact with_count. Qed.
+
+(* ------------------------------------------------------------------ holder-less contexts, InitLogger *)
+(* Log(ctx) on a context that carries no holder is the global logger of the moment *)
+Theorem C18_log_fallback : forall st c, holder_of st c = None -> log_of st c = glob st.
+Proof. exact log_fallback. Qed.
+
+(* WithFields / SetLevel / EnableDebug through a holder-less context, in any reachable state:
+   the global logger is untouched, no existing context changes, only the RETURNED context
+   carries the derived logger *)
+Theorem C18_default_holder_isolated : forall g ops c f,
+  let st := run core_with g ops in
+  holder_of st c = None ->
+  glob (update st c f) = glob st
+  /\ (forall c', (c' < length (ctxs st))%nat -> logger_of (update st c f) c' = logger_of st c')
+  /\ logger_of (update st c f) (length (ctxs st)) = f (glob st).
+Proof. exact default_holder_isolated. Qed.
+
+(* InitLogger ignores whatever logger the given context carries *)
+Theorem C18_init_ignores_context : forall st c fs,
+  log_of (step core_with st (OInit c fs)) (length (ctxs st)) = logger_with core_with (glob st) fs.
+Proof. exact init_ignores_context. Qed.
+
 (* the pinned code (wrapper core without its own With) violates C18_seq — kept as a record *)
 Theorem C18_seq_orig_refuted : exists g ops c l,
   emit (log_of (run core_with_orig g ops) c) l <> semit (slogger_of (srun (abs g) ops) c) l.
-Proof.
-  exists (Base 0 []), seq_witness, 1%nat, (-1). destruct seq_orig_witness as [E1 E2].
-  rewrite E1, E2. discriminate.
-Qed.
+Proof. exact seq_orig_refuted. Qed.
 
 (* ------------------------------------------------------------------ concurrent part *)
 (* WithFields / SetLevel as micro-steps  Load; CompareAndSwap (retry from the Load on failure)
@@ -120,6 +195,80 @@ Theorem C18_conc_prefix : forall c0 progs sched st tr,
   abs (snd (m_cell st)) = fold_left sapply (untag cop tr) (abs c0)
   /\ exists rest, Permutation (untag cop tr ++ rest) (concat progs).
 Proof. exact conc_prefix. Qed.
+
+(* ------------------------------------------------------------------ ChildLogger among the updates *)
+(* goroutines may mix WithFields / SetLevel / ChildLogger on contexts sharing one holder
+   (CChild: one Load; the child gets a fresh holder).  A ChildLogger call starts from EXACTLY
+   the sequential state after a prefix of the linearisation ([crun_vals]: the shared logger at
+   each linearisation point): its logger emits the initial fields, the fields of the updates
+   linearised before its Load, then its own, at the level of the last SetLevel among them ... *)
+Theorem C18_conc_child : forall c0 progs sched st tr i t fs,
+  crun (cinit c0 progs) sched = (st, tr) -> nth_error tr i = Some (t, CChild fs) ->
+  exists seen, nth_error (crun_vals (cinit c0 progs) sched) i = Some seen
+    /\ abs seen = fold_left sapply (untag cop (firstn i tr)) (abs c0)
+    /\ forall l, emit (logger_with core_with seen fs) l
+                 = semit (add_fields fs (fold_left sapply (untag cop (firstn i tr)) (abs c0))) l.
+Proof. exact conc_child_sees_prefix. Qed.
+
+(* ... and that prefix holds every earlier operation of its own goroutine and none of the later *)
+Theorem C18_conc_child_program_order : forall c0 progs sched st tr i t fs,
+  crun (cinit c0 progs) sched = (st, tr) -> all_returned cop core st = true ->
+  nth_error tr i = Some (t, CChild fs) ->
+  nth t progs [] = ops_of cop t (firstn i tr) ++ CChild fs :: ops_of cop t (skipn (S i) tr).
+Proof. exact conc_child_program_order. Qed.
+
+(* non-vacuity: the child of goroutine 1 is created between goroutine 0's Load and its
+   CompareAndSwap: it has goroutine 1's earlier field, not goroutine 0's *)
+Example C18_example_child :
+  let progs := [[CWith [1%N]; CChild [5%N]]; [CWith [2%N]; CChild [6%N]]] in
+  let sched := [0; 1; 1; 1; 0; 0; 0; 0]%nat in
+  all_returned cop core (fst (crun (cinit (Base 0 [9%N]) progs) sched)) = true
+  /\ map (fun x => (fst x, cfields (snd x))) (crun_children (cinit (Base 0 [9%N]) progs) sched)
+     = [((1, 1)%nat, [9%N; 2%N; 6%N]); ((0, 1)%nat, [9%N; 2%N; 1%N; 5%N])].
+Proof. vm_compute. repeat split. Qed.
+
+(* ------------------------------------------------------------------ the tie to the source *)
+(* ./check C18 regenerates from log/context_utils.go the control-flow graphs of the atomic
+   operations of WithFields / SetLevel / ChildLogger (Base/LogConcCfg.v) and evaluates
+   [prog_equiv] - a bisimulation check - against the programs of the theorems above.  For ANY
+   graphs that pass it, the machine running them and the machine of the theorems are
+   indistinguishable under EVERY schedule: same linearisation trace, same shared logger after
+   every step, same goroutines returned.  Loop shape, helper extraction, unrolling do not matter. *)
+Theorem C18_tie_sound : forall gp : cop -> list (ginstr fn),
+  (forall o, prog_equiv fn fn_eqb (gp o) (hand_graph o) = true) ->
+  forall c0 progs sched st tr, gcrun gp (cinit c0 progs) sched = (st, tr) ->
+  exists st', crun (cinit c0 progs) sched = (st', tr)
+              /\ m_cell st = m_cell st'
+              /\ all_returned cop core st = all_returned cop core st'
+              /\ gcrun_obs gp (cinit c0 progs) sched = crun_obs (cinit c0 progs) sched.
+Proof. exact tie_sound. Qed.
+
+(* hence: nothing is lost by the machine that runs the regenerated graphs *)
+Theorem C18_conc_of_source : forall gp : cop -> list (ginstr fn),
+  (forall o, prog_equiv fn fn_eqb (gp o) (hand_graph o) = true) ->
+  forall c0 progs sched st tr,
+  gcrun gp (cinit c0 progs) sched = (st, tr) -> all_returned cop core st = true ->
+  (exists added, Permutation added (flat_map cop_fields (concat progs))
+                 /\ cfields (snd (m_cell st)) = cfields c0 ++ added)
+  /\ Permutation (untag cop tr) (concat progs)
+  /\ (forall t, ops_of cop t tr = nth t progs [])
+  /\ abs (snd (m_cell st)) = fold_left sapply (untag cop tr) (abs c0)
+  /\ forall l, emit (snd (m_cell st)) l
+               = semit (cfields c0 ++ flat_map cop_fields (untag cop tr),
+                        lin_level (untag cop tr) (clevel c0)) l.
+Proof. exact conc_nothing_lost_src. Qed.
+
+(* the check accepts other spellings of the same machine and rejects different machines:
+   `x := Load(); for !CAS(x, f x) { x = Load() }`, a retry loop unrolled once - accepted;
+   Load; Store, a single attempt without retry, the wrong derivation - rejected *)
+Example C18_example_tie :
+  prog_equiv fn fn_eqb [GLoad 1; GCas FWith 3 2; GLoad 1] (hand_graph (CWith [])) = true
+  /\ prog_equiv fn fn_eqb [GLoad 1; GCas FLevel 4 2; GLoad 3; GCas FLevel 4 0] (hand_graph (CSetLevel 0)) = true
+  /\ prog_equiv fn fn_eqb [GLoad 1; GStore FWith 2] (hand_graph (CWith [])) = false
+  /\ prog_equiv fn fn_eqb [GLoad 1; GCas FWith 2 2] (hand_graph (CWith [])) = false
+  /\ prog_equiv fn fn_eqb [GLoad 1; GCas FLevel 2 0] (hand_graph (CWith [])) = false
+  /\ prog_equiv fn fn_eqb [GLoad 1; GRead 2] (hand_graph (CChild [])) = false.
+Proof. vm_compute. repeat split. Qed.
 
 (* ------------------------------------------------------------------ progress *)
 (* reachable state = state after any schedule from the initial one.  [cops_of t st] are the
@@ -185,6 +334,17 @@ Theorem C18_judge_final_ok_sound : forall c0 progs sched st tr final,
   final_ok c0 progs final = true.
 Proof. exact final_ok_sound. Qed.
 
+(* the same for the children: every child the model creates, under any schedule, passes
+   [children_ok] (initial fields, a sub-multiset of the added fields that contains everything
+   its own goroutine added before, then its own fields; an admissible level) *)
+Theorem C18_judge_children_ok_sound : forall c0 progs sched st tr (ch : list ((nat * nat) * cobs)),
+  crun (cinit c0 progs) sched = (st, tr) -> all_returned cop core st = true ->
+  clevel c0 <= 2 -> (forall p l, In p progs -> In (CSetLevel l) p -> l <= 2) ->
+  Forall2 (fun a b => fst a = fst b /\ expand (snd a) = probe (snd b)) ch
+          (crun_children (cinit c0 progs) sched) ->
+  children_ok c0 progs ch = true.
+Proof. exact children_ok_sound. Qed.
+
 (* the sequential judge compares with [srun_obs] itself, which C18_seq_table proves equal to
    the model's table; nothing further is needed there *)
 
@@ -204,23 +364,14 @@ Theorem C18_conc_orig_refuted : exists c0 progs sched,
   all_returned cop core (fst r) = true
   /\ ~ (exists added, Permutation added (flat_map cop_fields (concat progs))
                       /\ cfields (snd (m_cell (fst r))) = cfields c0 ++ added).
-Proof.
-  exists (Base 0 []), conc_witness_progs, conc_witness_sched.
-  destruct conc_orig_witness as [Hret Hf]. split; [exact Hret|].
-  intros (added & Hp & He). rewrite Hf in He. cbn in He. subst added.
-  apply Permutation_length in Hp. discriminate.
-Qed.
+Proof. exact conc_orig_refuted. Qed.
 
 (* … and a level change under T0 T1 T1 T0 *)
 Theorem C18_conc_orig_level_refuted : exists c0 progs sched,
   let r := crun_orig (cinit c0 progs) sched in
   all_returned cop core (fst r) = true
   /\ clevel (snd (m_cell (fst r))) <> lin_level (untag cop (snd r)) (clevel c0).
-Proof.
-  exists (Base 0 []), conc_witness2_progs, conc_witness2_sched.
-  destruct conc_orig_witness2 as (Hret & Hl & Htr). split; [exact Hret|].
-  rewrite Hl, Htr. discriminate.
-Qed.
+Proof. exact conc_orig_level_refuted. Qed.
 
 Print Assumptions C18_seq.
 Print Assumptions C18_seq_table.
@@ -239,3 +390,20 @@ Print Assumptions C18_conc_progress_obstruction_free.
 Print Assumptions C18_conc_progress_solo.
 Print Assumptions C18_conc_progress_failed_cas.
 Print Assumptions C18_judge_final_ok_sound.
+Print Assumptions C18_judge_children_ok_sound.
+Print Assumptions C18_wrapper_enabled.
+Print Assumptions C18_wrapper_check.
+Print Assumptions C18_wrapper_write_sync.
+Print Assumptions C18_wrapper_with.
+Print Assumptions C18_nested_levels.
+Print Assumptions C18_raise_after_lower.
+Print Assumptions C18_lower_after_raise.
+Print Assumptions C18_with_order.
+Print Assumptions C18_duplicates_kept.
+Print Assumptions C18_log_fallback.
+Print Assumptions C18_default_holder_isolated.
+Print Assumptions C18_init_ignores_context.
+Print Assumptions C18_conc_child.
+Print Assumptions C18_conc_child_program_order.
+Print Assumptions C18_tie_sound.
+Print Assumptions C18_conc_of_source.
